@@ -23,7 +23,7 @@ THEOREMS = [f'Gnpy.Chain.{t}' for t in (
     'floorDiv_spec', 'calcNewLength_spec', 'calcNewLength_short', 'calcNewLength_long', 'split_preserves_length_and_loss',
     'split_preserves_total_loss', 'split_spans_equal', 'splitLine_kinds', 'no_adjacent_fibres', 'roadm_fibre_junction_amplified',
     'original_order_preserved', 'addMissing_endpoints', 'multiband_kinds_follow_design_bands',
-    'multiband_dst_first_fails_current', 'multiband_fused_end_mixed_fails_current', 'one_in_one_out', 'endpoints_degree', 'chain_is_path',
+    'inserted_kind_follows_user_amplifiers', 'multiband_dst_first_fails_old', 'multiband_fused_end_mixed_fails_old', 'one_in_one_out', 'endpoints_degree', 'chain_is_path',
     'reachability_unchanged', 'names_unique_partial', 'connectors_defined',
     'padding_reached', 'padRun_dsl', 'padRun_fused_edge_unpadded_fails_current',
     'padRun_idempotent', 'amps_complete')]
@@ -39,8 +39,8 @@ RULE = ('cases from one PRNG: (a) 75 % star topologies (hub ROADM of degree 1-5,
         'non-trivial: design inserted an amplifier, split a fibre or padded a span / calc case with L >= max_length / '
         'every malformed case; distinct = distinct canonical JSON')
 MODEL_SCOPE = ('modelled: calculate_new_length, split_fiber with _span_params (att_in on the first span, lumped losses '
-               'distributed by position), add_roadm_preamp/booster, add_inline_amplifier incl. the Edfa / Multiband_amplifier decision (node order of the '
-               'two end ROADMs and the number of design bands of the source ROADM are inputs), '
+               'distributed by position), add_roadm_preamp/booster, add_inline_amplifier incl. the Edfa / Multiband_amplifier decision (_oms_needs_multiband; the number of '
+               'design bands of the source ROADM is an input), '
                'add_connector_loss, add_fiber_padding, prev/next_node_generator, span_loss. Chains are the unit: a '
                'ROADM-ROADM connection without any line element is outside the model (its amplifier depends on the '
                'node iteration order). Not modelled: the per-band amplifiers of a Multiband_amplifier (monitor only), per_degree_design_bands / '
@@ -262,15 +262,6 @@ def run_design(case, drv):
             if m is not None and 'missing' in a:
                 res.cmp_exact(f'chain[{ch["src"]}->{ch["dst"]}].elements after add_missing', [tuple(x) for x in m],
                               kinds_of_model(a['missing']))
-    if case.get('eqpt') and err == 'NetworkTopologyError' and model_err == 'NetworkTopologyError':
-        # the model predicts a mixed Edfa/Multiband line, or an all-Edfa line leaving a ROADM with several design bands
-        res.cmp_exact('designed_network.error', err, model_err)
-        res.fail('design raised: designed_network failed with NetworkTopologyError on a well-formed C+L topology: the '
-                 'kinds of the inserted amplifiers (Edfa / Multiband_amplifier) are inconsistent',
-                 cls='multiband-type-decision')
-        res.nontrivial = True
-        res.stats.update({'design': 1, 'multiband_cases': 1, 'multiband_kind_conflict': 1})
-        return res
     if err is not None or model_err is not None:
         # the C08 model covers the completion of the line; errors of the later gain/power walk belong to C09
         if model_err is not None or err != 'TypeError':
